@@ -11,7 +11,7 @@ NOTE = ('Trusted: Lean 4.33 kernel with axioms propext/Classical.choice/Quot.sou
 
 P = {
  'C01': ('proof', '3.4, 6 C01, 12.1', 'refinement proof (compiler correctness, delegation included) + correspondence',
-         'Theorem C01_vm_correct_s3 (all texts, offsets, patterns in the stage): the VM run of the compiled wrapped tree equals the reference leftmost priority-ordered search - match/no match, span, every group - up to the three resource stops, for every pattern inside the decidable stage predicate s3Stage: literals, classes, any, assertions, \\K, \\G, back-references, group tests, concat, alt, groups, all quantifiers (NoEmptyLoop), atomic groups, look-aheads, look-behinds (alternation bodies included, all four compiler layouts), conditionals (NoCondLeak), easy sub-trees delegated whole in non-hard contexts, const-size easy prefixes/suffixes delegated in hard contexts when group-free or linear (no choice, or a group-free one-size alternation). C01_pipeline_s3 (Proofs/C01e): the same from the pattern STRING - parser model, build, compile, run - with the shape hypotheses discharged by theorems (parser output is wellShaped once build accepts it; every emitted Delegate owns ordinary slots). Delegate is executed by delegateOracle (first reference result of the delegated expressions: assumption A-RA about regex-automata, checked on every delegated piece explored). Chain: undo-log State -> whole copies (C20) -> auxiliary stack as a list (AuxStack) -> structured machine Big2 for every instruction (link2) -> reference semantics (sim3_visit) -> refSearch. Also: reference search is leftmost; semK = list semantics; negative witness theorems for F1/F8/F10. Outside the stage (delegated pieces in hard contexts whose results differ in an unreferenced group, F1/F8/F10 territory) the model VM is validated, not proved; the evidence states the share of explored patterns inside the stage on every run (about 93% of VM-path patterns; most of the rest is outside the property's domain: F1). Tie: build kind, program listing and span, implementation vs model, every explored case; oracle: implementation vs reference on all in-domain cases.'),
+         'Theorem C01_vm_correct_s3 (all texts, offsets, patterns in the stage): the VM run of the compiled wrapped tree equals the reference leftmost priority-ordered search - match/no match, span, every group - up to the three resource stops, for every pattern inside the decidable stage predicate s3Stage: literals, classes, any, assertions, \\K, \\G, back-references, group tests, concat, alt, groups, all quantifiers (NoEmptyLoop), atomic groups, look-aheads, look-behinds (alternation bodies included, all four compiler layouts), conditionals (NoCondLeak), easy sub-trees delegated whole in non-hard contexts, const-size easy prefixes/suffixes delegated in hard contexts when group-free or linear (no choice, or a group-free one-size alternation). C01_pipeline_s3 (Proofs/C01e): the same from the pattern STRING - parser model, build, compile, run - with the shape hypotheses discharged by theorems (parser output is wellShaped once build accepts it; every emitted Delegate owns ordinary slots). Delegate is executed by delegateOracle (first reference result of the delegated expressions: assumption A-RA about regex-automata, checked on every delegated piece explored). Chain: undo-log State -> whole copies (C20) -> auxiliary stack as a list (AuxStack) -> structured machine Big2 for every instruction (link2) -> reference semantics (sim3_visit) -> refSearch. Also: reference search is leftmost; semK = list semantics; negative witness theorems for F1/F8/F10. Outside the stage (delegated pieces in hard contexts whose results differ in an unreferenced group, F1/F8/F10 territory) the model VM is validated, not proved; the evidence states the share of explored patterns inside the stage on every run (about 93% of VM-path patterns; most of the rest is outside the domain of the property: F1). Tie: build kind, program listing and span, implementation vs model, every explored case; oracle: implementation vs reference on all in-domain cases.'),
  'C02': ('proof', '6 C02, 12.1', 'refinement proof (compiler correctness) + correspondence',
          "Theorem C02_groups_s3: in the proved stage (see C01) every capture slot reported by the VM run of the compiled program equals the reference's (last iteration that entered the group, unset if never entered, kept through look-arounds, nothing from abandoned alternatives; groups inside delegated pieces: those that took part are copied, the others keep their value - delegate_step_spec). Spec lemmas: set groups have start <= end, frame, numbering = pre-order. Tie and oracle compare every group of every match and the per-node group ranges of the analysis; commit/restore and numbering pattern families."),
  'C03': ('proof', '6 C03, 12.1', 'spec congruence theorem + engine corollary of the refinement + metamorphic differential',
